@@ -229,8 +229,9 @@ StripTsig ==
 
 (* faults on the receiver's side *)
 ConfigFault(what) ==
-    /\ ~dead /\ Cardinality(cf) < MaxFaults /\ what \notin cf
-    /\ CASE what = "wrongkey" -> ring' = {[skey EXCEPT !.secret = "forged-secret"]} /\ UNCHANGED <<rreq, rprior>>
+    /\ ~dead /\ net # <<>> /\ Cardinality(cf) < MaxFaults /\ what \notin cf
+    /\ CASE what = "wrongkey" -> /\ raccepted = 0    \* the secret is bound when the exchange starts (running HMAC context)
+                                 /\ ring' = {[skey EXCEPT !.secret = "forged-secret"]} /\ UNCHANGED <<rreq, rprior>>
          [] what = "wrongname" -> ring' = {[skey EXCEPT !.name = "another-name"]} /\ UNCHANGED <<rreq, rprior>>
          [] what = "wrongalg" -> ring' = {[skey EXCEPT !.alg = IF @ = "hmac-sha1" THEN "hmac-sha224" ELSE "hmac-sha1"]}
                                  /\ UNCHANGED <<rreq, rprior>>
@@ -241,7 +242,7 @@ ConfigFault(what) ==
     /\ cf' = cf \cup {what}
     /\ UNCHANGED <<kind, skey, fudge, serror, rpend, raccepted, spend, sprior, net, sent, lastsigned, mf, skew, taint, verdicts, dead>>
 ClockSkew(d) ==
-    /\ ~dead /\ skew = 0 /\ d # 0 /\ d \in Skews
+    /\ ~dead /\ net # <<>> /\ skew = 0 /\ d # 0
     /\ skew' = d
     /\ UNCHANGED <<kind, skey, fudge, serror, ring, rreq, sprior, spend, rprior, rpend, raccepted, net, sent, lastsigned, mf, cf, taint, verdicts, dead>>
 
